@@ -2,7 +2,7 @@
    ExtrOcamlBasic only; nat, Z, positive, Q stay Coq datatypes. *)
 Require Extraction.
 Require Import ExtrOcamlBasic.
-From TV Require Import Model.IndexSets Model.GridState Model.RuleLocal Model.Selection.
+From TV Require Import Model.IndexSets Model.GridState Model.RuleLocal Model.Selection Model.Hier Model.LocalGrid.
 Extraction Language OCaml.
 Set Extraction Optimize.
 Extraction "../ocaml/gen/core.ml"
@@ -10,4 +10,5 @@ Extraction "../ocaml/gen/core.ml"
   GridState.step GridState.run
   getNumPoints getMaxNumKids getMaxNumParents getParent getStepParent getKid getLevel
   getNode getSupport scaleDiffX scaleX evalRaw evalSupport diffSupport
-  classic_candidates.
+  classic_candidates
+  surpluses evalAt hier_cert parent_complete by_level reach Bc.
